@@ -95,8 +95,12 @@ def main():
             res = r
     except Exception as e:
         log(traceback.format_exc())
-        print('HARNESS-ERROR property=%s %r' % (pid, e))
-        sys.exit(2)
+        if not any(f.kind == 'oracle' for f in res.failures):
+            print('HARNESS-ERROR property=%s %r' % (pid, e))
+            sys.exit(2)
+        # the harness broke AFTER the property's oracle had failed on the real code (typically while shrinking or
+        # explaining the failure): the failing inputs found so far are reported, the error is named in the evidence
+        res.extra['harness_error_after_failures'] = repr(e)
     finally:
         if drv:
             drv.close()
